@@ -251,6 +251,22 @@ func (x *Exec) modTargets(env *Env, item string) ([]modTarget, error) {
 		if pk, ok := x.prog.ByPath[gf.Pkg]; ok {
 			declPkg = pk.Types
 		}
+		if i := strings.Index(gf.Type, "->"); i >= 0 {
+			// array-valued ghost field "K -> V"
+			kt, err := x.prog.LookupType(strings.TrimSpace(gf.Type[:i]), declPkg)
+			if err != nil {
+				return nil, err
+			}
+			vt, err := x.prog.LookupType(strings.TrimSpace(gf.Type[i+2:]), declPkg)
+			if err != nil {
+				return nil, err
+			}
+			kl, vl := x.u.Layout(kt), x.u.Layout(vt)
+			if len(kl) != 1 || len(vl) != 1 {
+				return nil, fmt.Errorf("ghost field $%s: key and value must be scalar", name)
+			}
+			return []modTarget{{Comp: ghostFieldComp(types.Unalias(ty), name, ""), So: ArrSort(SInt, ArrSort(kl[0].So, vl[0].So))}}, nil
+		}
 		gt, err := x.prog.LookupType(gf.Type, declPkg)
 		if err != nil {
 			gt, err = x.prog.LookupType(gf.Type, env.pkg)
@@ -569,6 +585,31 @@ func VerifyFunction(prog *Program, cs *Contracts, fn *ssa.Function, fc *FuncCont
 	vo := u.AddObligation(short, "vacuity.requires", fn.Pos(), fc.Props, "preconditions are satisfiable", True, False)
 	vo.Vacuity = true
 	work := st.Clone()
+	// ghost assignments the function defines (executed on entry; right sides in the pre-state)
+	for _, gs := range fc.GhostSets {
+		wenv := x.envFor(fr, work, fr.entry)
+		for k, v := range letVals {
+			wenv.names[k] = v
+		}
+		renv := x.envFor(fr, fr.entry, fr.entry)
+		for k, v := range letVals {
+			renv.names[k] = v
+		}
+		rv, err := renv.Eval(gs.RHS)
+		if err != nil {
+			res.Err = engineErr("%s ghost set %q: %v", short, gs.Text, err)
+			return
+		}
+		xv, err := wenv.Eval(gs.LHS.X)
+		if err != nil {
+			res.Err = engineErr("%s ghost set %q: %v", short, gs.Text, err)
+			return
+		}
+		if err := wenv.setGhostField(xv, gs.LHS.Name[1:], rv); err != nil {
+			res.Err = engineErr("%s ghost set %q: %v", short, gs.Text, err)
+			return
+		}
+	}
 	if err := x.runBody(fr, work); err != nil {
 		res.Err = err
 		return
